@@ -34,7 +34,7 @@ PROBES = ["crash_points_enumerated", "crash_inside_copy", "crash_inside_record_w
           "crash_torn_write", "manager_refused_after_crash", "manager_listed_after_crash", "manager_not_listed_after_crash",
           "preexisting_backup_survived", "restore_exact_checked", "restore_after_delete", "restore_after_rmdir",
           "restore_tasks_nonempty_writeset", "restore_tasks_checked", "remodel_twice_checked",
-          "remodel_modified_between", "second_backup_refused", "isolation_checked", "io_error_injected"]
+          "remodel_modified_between", "second_backup_refused", "isolation_checked", "io_error_injected", "dispatch_reads_backup_checked"]
 RULE = ("Each run is one generated scenario (data tree of 2-8 files in 1-3 directory levels, BIDS-like names with and "
         "without a task entity in both spellings, sizes 0 B-200 kB, optional pre-existing backup, file selection as "
         "run_remodel_backup does it).  Runs with index%3==0 are crash scenarios: every file-system step of one backup "
@@ -156,6 +156,12 @@ MODELS = [
     [{"operation": "reorder_columns", "description": "d",
       "parameters": {"column_order": ["onset", "trial_type"], "ignore_missing": True, "keep_others": False}},
      {"operation": "remove_rows", "description": "d", "parameters": {"column_name": "trial_type", "remove_values": ["rest"]}}],
+    # models that are NOT idempotent on their own output (so reading the data file instead of the backup shows)
+    [{"operation": "split_rows", "description": "d",
+      "parameters": {"anchor_column": "trial_type", "remove_parent_row": False,
+                     "new_events": {"resp": {"onset_source": [0.25], "duration": [0], "copy_columns": ["response"]}}}}],
+    [{"operation": "rename_columns", "description": "d",
+      "parameters": {"column_mapping": {"response": "value2", "value2": "value3"}, "ignore_missing": True}}],
 ]
 
 
@@ -192,8 +198,10 @@ def generate(run_index, seed, tier):
                         "tasks": g.pick([[], [], g.subset(TASKS, 1, 2)])})
         elif r < 0.8:
             ops.append({"op": "remodel", "model": g.randrange(len(MODELS)), "name": names[0],
-                        "twice": g.pick(["no", "yes", "yes", "modify-between"]), "tasks": g.pick([[], [], ["go"]])})
-        elif r < 0.92:
+                        "twice": g.pick(["no", "yes", "yes", "modify-between"]), "tasks": g.pick([[], [], ["go"], ["*"]])})
+        elif r < 0.86:
+            ops.append({"op": "dispatch", "model": g.randrange(len(MODELS)), "name": names[0]})
+        elif r < 0.94:
             ops.append({"op": "backup", "name": g.pick(names), "via": g.pick(["cli", "api"]), "sel": _gen_selection(g)})
         else:
             ops.append({"op": "reopen"})
@@ -435,6 +443,8 @@ def execute(sc, script=None):
                     _do_restore(world, o, oi)
                 elif kind == "remodel":
                     nontrivial = _do_remodel(world, o, oi, model_dir) or nontrivial
+                elif kind == "dispatch":
+                    nontrivial = _do_dispatch(world, o, oi) or nontrivial
                 elif kind == "reopen":
                     man, exc = world.fresh_manager()
                     if man is None and not world.crashed_names:
@@ -645,7 +655,9 @@ def _do_remodel(world, o, oi, model_dir):
     visit = sorted(os.path.relpath(f, world.root) for f in
                    W["io_util"].get_file_list(world.root, name_suffix="events", extensions=[".tsv"],
                                               exclude_dirs=["derivatives", "remodel"]))
-    if o.get("tasks"):
+    if o.get("tasks") == ["*"]:
+        visit = [v for v in visit if W["io_util"].get_task_from_file(v)]
+    elif o.get("tasks"):
         visit = [v for v in visit if W["io_util"].get_task_from_file(v) in o["tasks"]]
     if not visit or any(v not in rec for v in visit):
         world.probe("remodel_skipped_backup_does_not_cover")
@@ -682,6 +694,50 @@ def _do_remodel(world, o, oi, model_dir):
                        % (o["twice"], v, None if once[v] is None else len(once[v]), None if twice[v] is None else len(twice[v])),
                        "twice-differs-from-once")
             break
+    return True
+
+
+def _do_dispatch(world, o, oi):
+    """API level: Dispatcher(ops, data_root, backup_name).run_operations(path) reads the backed-up copy, so its result
+    does not depend on what happened to the data file after the backup."""
+    W = world.W
+    name = o["name"]
+    rec = world.model.get(name)
+    if not rec:
+        return False
+    targets = sorted(r for r in rec if r.endswith("_events.tsv"))[:2]
+    if not targets:
+        return False
+    from hed.tools.remodeling.dispatcher import Dispatcher
+    import pandas as pd
+    model = copy.deepcopy(MODELS[o["model"]])
+    out = {}
+
+    def fn():
+        d = Dispatcher(model, data_root=world.root, backup_name=name)
+        return {t: d.run_operations(os.path.join(world.root, t)).to_csv(sep="\t", index=False) for t in targets}
+    # expected: the same operations applied to the backed-up bytes
+    want = {}
+    for t in targets:
+        df = pd.read_csv(io.BytesIO(rec[t]), sep="\t", header=0, keep_default_na=False, na_values=",null")
+        want[t] = Dispatcher(copy.deepcopy(model), data_root=None, backup_name=None).run_operations(df).to_csv(sep="\t", index=False)
+    for t in targets:
+        _do_user_edit(world, {"op": "modify", "path": t, "how": "append"})
+    p = world.run_proc("dispatch", fn)
+    if p.state != "done":
+        if world.crashed_names:
+            return False
+        world.viol("remodel-idempotent", "Dispatcher.run_operations on a backed-up file raised %s: %s"
+                   % (type(p.exc).__name__, str(p.exc)[:200]), "dispatch-raised-%s" % type(p.exc).__name__)
+        return True
+    world.probe("dispatch_reads_backup_checked")
+    for t in targets:
+        if p.result[t] != want[t]:
+            world.viol("remodel-idempotent", "Dispatcher.run_operations(%s) after the data file was modified gives a result that "
+                       "differs from the operations applied to the backed-up original (%d vs %d characters)"
+                       % (t, len(p.result[t]), len(want[t])), "dispatcher-does-not-start-from-backup")
+            break
+    del out
     return True
 
 
